@@ -6,7 +6,7 @@ import ast
 
 from sa.cfg import expr_guards, facts
 from sa.consteval import NT, UNKNOWN, Folder
-from sa.model import AnalysisError, Finding, FunctionInfo, loc, names_in, src
+from sa.model import AnalysisError, Finding, FunctionInfo, enclosing_fn, loc, names_in, src
 from sa.strshape import literal_fragments, literal_prefixes
 
 
@@ -421,26 +421,43 @@ def rule_table_argparse(prog, rep, tier):
 
 
 # ---------------------------------------------------------------------------- TABLE-announce (C08, C17)
+def _value_candidates(prog, e, fn_node, depth=0):
+    """expressions an expression may evaluate to: both arms of a conditional, every definition of a local name, every
+    `return` of a package function that is called (up to 3 levels)"""
+    if depth > 3 or e is None:
+        return []
+    if isinstance(e, ast.IfExp):
+        return _value_candidates(prog, e.body, fn_node, depth + 1) + _value_candidates(prog, e.orelse, fn_node, depth + 1)
+    out = [e]
+    if isinstance(e, ast.Name) and fn_node is not None:
+        for st in ast.walk(fn_node):
+            if isinstance(st, ast.Assign) and any(isinstance(t, ast.Name) and t.id == e.id for t in st.targets):
+                out += _value_candidates(prog, st.value, fn_node, depth + 1)
+    if isinstance(e, ast.Call):
+        for t in prog.resolve_expr_fn(e.func, e):
+            if isinstance(t, FunctionInfo):
+                for r in ast.walk(t.node):
+                    if isinstance(r, ast.Return) and r.value is not None and enclosing_fn(r) is t:
+                        out += _value_candidates(prog, r.value, t.node, depth + 1)
+    return out
+
+
 def _announce_reader(prog, folder):
     ed0 = prog.fn("defaults_utils.extract_default")
     for ed, c in [(f_, c_) for f_ in prog.region(ed0) for c_ in ast.walk(f_.node)]:
         if isinstance(c, ast.Call) and prog.is_fn(c.func, "pure_utils.location_within", c) and len(c.args) >= 2:
-            e = c.args[1]
-            if isinstance(e, ast.IfExp):
-                e = e.body
-            cands = [e]
-            if isinstance(e, ast.Name):
-                cands = [st.value for st in ast.walk(ed.node) if isinstance(st, ast.Assign) and any(isinstance(t, ast.Name) and t.id == e.id for t in st.targets)] or [e]
             v = UNKNOWN
-            for cand in cands:
-                if isinstance(cand, ast.IfExp):
-                    cand = cand.body
+            for cand in _value_candidates(prog, c.args[1], ed.node):
                 vv = folder.fold(cand, {}, cand)
                 if vv is not UNKNOWN and isinstance(vv, (tuple, list, frozenset)) and vv and all(isinstance(x, str) for x in vv):
                     v = tuple(sorted(vv)) if isinstance(vv, frozenset) else vv
                     break
             if v is not UNKNOWN:
-                casefold = any(isinstance(x, ast.Attribute) and x.attr == "casefold" for k in c.keywords for x in ast.walk(k.value))
+                casefold = False
+                for k in c.keywords:
+                    roots = [k.value] + [t.node for t in prog.resolve_expr_fn(k.value, k.value) if isinstance(t, FunctionInfo)] if isinstance(k.value, (ast.Name, ast.Attribute)) else [k.value]
+                    if any(isinstance(x, ast.Attribute) and x.attr in ("casefold", "lower", "upper") for r_ in roots for x in ast.walk(r_)):
+                        casefold = True
                 return tuple(v), casefold, c
     raise AnalysisError("TABLE-announce: the announcement tuple of extract_default does not fold")
 
